@@ -16,3 +16,5 @@ mod utils;
 
 pub use crate::formatter::{Format, Formatter};
 pub use error::FormatterError;
+#[cfg(fuellabs_sway_verif)]
+pub use crate::utils::map::newline_style::verif_newline_stage;
